@@ -21,7 +21,7 @@ CLAIMED = {
                 "fixed-size encoders through the real serde::Serializer methods, UNIX_FD index/count, serialize_seq header (length slot, "
                 "first-element padding even when empty, depth, signature switch) and SeqSerializer::end_seq (back-patched length excludes the first "
                 "padding; only the slot is written) -- every unit with a byte-exact frame obligation; StructSerializer::{variant,structure,end_struct} and serialize_struct_element (nested serializer gets field k's signature and the parent's counter, position and depth); the public serialized_size entry point on fixed-size values (size = padding + width = what the encoder units show is written); and, by Verus on the extracted source, padding_for_n_bytes over mathematical integers and alignment_dbus == the specification's table for EVERY signature value. String encoders are bounded (ASCII, L<=4 quick) "
-                "and reported separately, never as discharged proofs. NOT covered: dict-entry key/value swap, enum_variant, Serialize impls of "
+                "and reported separately, never as discharged proofs. also MapSerializer::{serialize_key,serialize_value} (8-byte entry padding, key under the key signature, value under the value signature, signature restored). NOT covered: enum_variant, Serialize impls of "
                 "Value/Array/Dict/Structure, FdList::Fds (dup(2)), serialized_size of containers; nesting of arbitrary values rests on the per-mechanism contracts plus a paper lemma.",
         "note": COMMON_TRUST + "Writer is a Cursor over a 16..32-byte window that is large enough for everything the unit writes; the fd count is assumed < u32::MAX. "
                 "Termination not verified. Bounded units (strings) are counted in bounded_obligations only.",
@@ -31,7 +31,7 @@ CLAIMED = {
         "category": "other",
         "technique": TECH_KANI + "; bounded-buffer",
         "text": "Bounded contract proof: every decoder mechanism named in the anchors (parse_padding, next_slice, bool and the other fixed-size "
-                "decoders, UNIX_FD index, strings s/g with terminator and interior-NUL rules, ArrayDeserializer::new/next_element, dict and struct "
+                "decoders, the signature-driven deserialize_any dispatch for every fixed-size basic type (the visitor gets the visit_* call of exactly that type), UNIX_FD index, strings s/g with terminator and interior-NUL rules, object paths inside variants (ValueSeed), ArrayDeserializer::new/next_element, dict and struct "
                 "framing, variant signature + payload staging) is called on the real dbus::Deserializer over a fully symbolic buffer of 5..16 bytes "
                 "at any message offset and byte order; `Ok` is characterised exactly (iff valid per the spec predicate) and tied to the spec "
                 "decoding. Complete in everything except the buffer length, hence category `other`, not `proof`. Whole-value decoding through "
@@ -69,7 +69,7 @@ CLAIMED = {
                 "byte-loop recogniser written from the specification accepts, for EVERY byte string (all 256 byte values) of length <= 6 (quick) / "
                 "<= 10 (thorough); TryFrom<&str> constructors agree with the validators (ASCII, N<=5); the 255/256-byte limit on concrete maximal "
                 "names with symbolic length 254..256; GUID = exactly 32 hex digits on a concrete template with 3 symbolic bytes and symbolic length "
-                "31..33 plus the other textual UUID forms as instances.",
+                "31..33 plus the other textual UUID forms as instances; member names of exactly 255 / 256 bytes (the same units for dotted names do not finish: tool limit); object paths '/'+any byte, and non-ASCII instances; conversion from a dynamic Value for MemberName (recorded known finding: it does not validate) and BusName (validates).",
         "note": COMMON_TRUST + "uuid / winnow are executed, not assumed. Deserialize impls call try_from (read, not proved). Bound: string length.",
         "design_ref": "DESIGN.md §4 C10, §9",
     },
@@ -97,7 +97,7 @@ CLAIMED = {
     "C02": {
         "category": "proof",
         "technique": TECH_KANI,
-        "text": "Composed contract units: for each of the nine fixed-size basic types the REAL serializer method writes the value at an arbitrary "
+        "text": "Composed contract units: for each of the nine fixed-size basic types (plus i8 and f32, which zvariant widens to INT16 / DOUBLE on the wire) the REAL serializer method writes the value at an arbitrary "
                 "message position / byte order / writer offset and the REAL dbus::Deserializer then reads exactly those bytes (buffer cut at the end "
                 "of what was written): decoded value bit-equal to the original (NaN payloads included) and consumed length == written length, for ALL "
                 "values (complete, no bound). Containers: the generic T: Serialize / Visitor entry points are out of CBMC's reach, so the round trip "
@@ -163,7 +163,7 @@ CLAIMED = {
                 "thresholds crossed by the offsets themselves are cover points); write_offset writes exactly `width` little-endian bytes and nothing "
                 "else (complete); read_last_offset_from_buffer returns the value of the last `width` bytes (buffers <= 12); FramingOffsets::write_all "
                 "writes the offsets in insertion order at the minimal width chosen from the final container size, and nothing when there are none "
-                "(<= 3 offsets). NOT decided: the alignment_gvariant / is_fixed_sized tables (units did not finish under CBMC even on concrete "
+                "(<= 3 offsets); FramingOffsets::from_encoded_array never panics on any container of <= 6 bytes and only hands out offsets that point before the offset table. NOT decided: the alignment_gvariant / is_fixed_sized tables (units did not finish under CBMC even on concrete "
                 "signatures, Verus rejects the iterator adapters), the GVariant serializer's per-type and container layout (arrays, structs, dicts, "
                 "maybe, variants), and BOOLEAN width (zvariant routes it through the D-Bus path: suspect, not under contract). A change there is not detected.",
         "note": COMMON_TRUST + "Verus unit: usize = 64 bit; lift rewrites listed in evidence. Offsets passed to write_offset are assumed representable in the chosen width "
